@@ -48,8 +48,18 @@ def spec_check(ck, scn, impl):
                 why = [cg_matches(rt["cg"], t["st"]) for rt in tree]
                 ck.oracle_fail("report:type-missing-or-wrong", case, {"type": t["name"], "why": why}, "type %s with its %d instances present with in-memory names/counts" % (t["name"], len(members)))
                 continue
-            used.add(cand[0])
-            rt = tree[cand[0]]
+            # among the entries with the right content prefer the one that also carries the in-memory name
+            named = [i for i in cand if tree[i]["cg"].get("name") == t["name"]]
+            used.add((named or cand)[0])
+            rt = tree[(named or cand)[0]]
+            if rt["cg"].get("name") != t["name"]:
+                ck.oracle_fail("report:type-name", case, {"reported": rt["cg"].get("name"), "in_memory": t["name"]},
+                               "the type covergroup is reported under its in-memory name")
+            for ri, mi in zip(rt["insts"], members):
+                # instance scopes may get a _k suffix when two instances share a name
+                if not str(ri.get("name", "")).startswith(str(mi.get("name", ""))):
+                    ck.oracle_fail("report:instance-name", case, {"reported": ri.get("name"), "in_memory": mi.get("name")},
+                                   "the instance is reported under its in-memory name (possibly with a _k suffix)")
             # percentages agree with get_coverage()/get_inst_coverage()  (crosses carry weight 1 in PyUCIS)
             def pct(rc, ms, sh_has_xw):
                 for p, q in zip(rc["cps"], ms["cp"]):
